@@ -9,6 +9,8 @@
 (* sequences replayed against the real handlers (GenX08).                       *)
 EXTENDS AdminI, Json
 
+CONSTANTS Hub, Managed                            \* the environment of the engine process of this instance
+
 CONSTANTS TagsA, TagsB, TagsC, TagsQ, TagsG,       \* what a tree may hold per path ("none" = absent)
           PayA, PayB, PayQ, PayG,                   \* what a payload may carry per path ("none" = not in the payload)
           PolTagsMC, BodyTagsMC,                    \* policy mode: contents of policies.yaml, bodies of /apply_policies
@@ -68,11 +70,11 @@ KeyRequests == IF Mode = "flows" THEN {<<"validate_flows", "POST", NoArg>>, <<"l
                      <<"revert_to_last_loaded", "POST", NoArg>>, <<"revert_to_diagnosis_free", "POST", NoArg>>}
 
 OpNext ==
-    \/ Room /\ Mode = "flows" /\ \E t \in EditTrees : Edit(t)
-    \/ Room /\ Mode = "policies" /\ \E t \in EditPol : Edit(t)
+    \/ Room /\ ~dead /\ Mode = "flows" /\ \E t \in EditTrees : Edit(t)
+    \/ Room /\ ~dead /\ Mode = "policies" /\ \E t \in EditPol : Edit(t)
     \/ Room /\ Start
-    \/ Room /\ up /\ \E w \in Pick(StateFiles), t \in {"s1", "absent"} : sf[w] # t /\ StateFile(w, t)
-    \/ Room /\ WithFault /\ up /\ ArmFault
+    \/ Room /\ up /\ ~dead /\ \E w \in Pick(StateFiles), t \in {"s1", "absent"} : sf[w] # t /\ StateFile(w, t)
+    \/ Room /\ WithFault /\ up /\ ~dead /\ ArmFault
     \/ Room /\ \E r \in Pick(Requests) : Call(r[1], r[2], r[3])
     \/ Room /\ Sampled /\ \E r \in KeyRequests : Call(r[1], r[2], r[3])
     \/ Room /\ Mode = "flows" /\ up /\ ~dead /\ \E e \in {"apply_flows", "configuration"}, pl \in Pick(Payloads) :
@@ -97,7 +99,7 @@ Monitor ==
     /\ hist' = IF RecordHistory /\ out'.ev \notin {"tau", "finish"} THEN Append(hist, OpOf(out')) ELSE hist
 
 InitMC ==
-    /\ \E d0 \in Pick(IF Mode = "flows" THEN Trees ELSE {PolDisk(t) : t \in PolTagsMC}) : InitI(d0)
+    /\ \E d0 \in Pick(IF Mode = "flows" THEN Trees ELSE {PolDisk(t) : t \in PolTagsMC}) : InitI(d0, Hub, Managed)
     /\ LET p0 == P!PInit(Mode, Hub, Managed)
            r == P!PStep(p0, out, {})
        IN p = r.p /\ viol = r.v
@@ -109,7 +111,7 @@ SpecMC == InitMC /\ [][NextMC]_<<ivars, mvars>>
 
 Holds == viol = ""
 \* the history is not part of the state the exhaustive search distinguishes
-View == <<disk, eng, up, dead, lock, sf, fault, upd, p, viol>>
+View == <<disk, eng, up, dead, lock, sf, fault, upd, env, p, viol>>
 
 Emit == (RecordHistory /\ (Len(hist) >= MaxHist \/ dead) /\ upd.pc = "idle") =>
             PrintT(<<"VH", ToJson([mode |-> Mode, hub |-> Hub, managed |-> Managed, ops |-> hist])>>)
